@@ -273,6 +273,18 @@ func (s *Session) Exec(line string) (obs string, viol string) {
 			if found && err == nil {
 				got = s.Cfg.ValNat(v)
 			}
+		case "ptr":
+			var v *uint64
+			found, err = m.Get(s.ctx, s.Cfg.Key(k), &v)
+			if found && err == nil {
+				got = s.Cfg.ValNat(v)
+			}
+		case "iface":
+			var v IV
+			found, err = m.Get(s.ctx, s.Cfg.Key(k), &v)
+			if found && err == nil {
+				got = s.Cfg.ValNat(v)
+			}
 		}
 		if err != nil {
 			return errClass(err), "lookup failed on a healthy store: " + err.Error()
